@@ -287,12 +287,20 @@ class UnionMatcher(AdditiveBiMatcher):
         aq = a.block_quality()
         bq = b.block_quality()
         while a.is_active() and b.is_active() and aq + bq < minquality:
+            # A sub-matcher may only skip postings that can't reach the
+            # minimum quality even when paired with the best posting anywhere
+            # in the other sub-matcher (not just the other's current block)
             if aq < bq:
-                skipped += a.skip_to_quality(minquality - bq)
-                aq = a.block_quality()
+                sk = a.skip_to_quality(minquality - b.max_quality())
+                if a.is_active():
+                    aq = a.block_quality()
             else:
-                skipped += b.skip_to_quality(minquality - aq)
-                bq = b.block_quality()
+                sk = b.skip_to_quality(minquality - a.max_quality())
+                if b.is_active():
+                    bq = b.block_quality()
+            if not sk:
+                break
+            skipped += sk
 
         return skipped
 
@@ -520,8 +528,10 @@ class IntersectionMatcher(AdditiveBiMatcher):
             if aq < bq:
                 # If the block quality of A is less than B, skip A ahead until
                 # it can contribute at least the balance of the required min
-                # quality when added to B
-                sk = a.skip_to_quality(minquality - bq)
+                # quality when added to the best posting in B (B's current
+                # block is not a bound: the skipped documents may fall in
+                # later, better blocks of B)
+                sk = a.skip_to_quality(minquality - b.max_quality())
                 skipped += sk
                 if not sk and a.is_active():
                     # The matcher couldn't skip ahead for some reason, so just
@@ -529,7 +539,7 @@ class IntersectionMatcher(AdditiveBiMatcher):
                     a.next()
             else:
                 # And vice-versa
-                sk = b.skip_to_quality(minquality - aq)
+                sk = b.skip_to_quality(minquality - a.max_quality())
                 skipped += sk
                 if not sk and b.is_active():
                     b.next()
@@ -770,13 +780,22 @@ class AndMaybeMatcher(AdditiveBiMatcher):
         aq = a.block_quality()
         bq = b.block_quality()
         while a.is_active() and b.is_active() and aq + bq < minquality:
+            # See UnionMatcher.skip_to_quality
             if aq < bq:
-                skipped += a.skip_to_quality(minquality - bq)
-                aq = a.block_quality()
+                sk = a.skip_to_quality(minquality - b.max_quality())
+                if a.is_active():
+                    aq = a.block_quality()
             else:
-                skipped += b.skip_to_quality(minquality - aq)
-                bq = b.block_quality()
+                sk = b.skip_to_quality(minquality - a.max_quality())
+                if b.is_active():
+                    bq = b.block_quality()
+            if not sk:
+                break
+            skipped += sk
 
+        # Keep the optional matcher in step with the required one
+        if a.is_active() and b.is_active() and b.id() < a.id():
+            b.skip_to(a.id())
         return skipped
 
     def weight(self):
